@@ -276,6 +276,13 @@ struct SCTr : public sigc::trackable
 static long sc_fp(long& x, std::string& s) { x += 40; s += "77"; return x; }
 static long& sc_ref(long& x) { return x; }
 static long& sc_ref2(long& x, long) { return x; }
+struct Verdict { long n = 0; };
+static Verdict g_verdict;
+struct RefAcc
+{
+  using result_type = Verdict&;
+  template <class It> Verdict& operator()(It first, It last) const { long k = 0; for (; first != last; ++first) k += *first; g_verdict.n = k; return g_verdict; }
+};
 static void fixed_signal_connect()
 {
   std::string out;
@@ -364,6 +371,29 @@ static void fixed_signal_connect()
     sigc::signal<long()> g; g.connect([]() { return (short)-9; });
     out += " N:" + std::to_string(s1()) + "," + std::to_string(s2()) + "," + std::to_string(s3()) + "," + std::to_string(s4())
          + "," + std::to_string((int)(s5() * 10)) + "," + std::to_string(g.emit());
+  }
+  {
+    // an accumulator whose verdict is a reference: emit(), operator() and make_slot() hand that very object back
+    sigc::signal<long(long)>::accumulated<RefAcc> g;
+    g.connect([](long x) { return x + 1; }); g.connect([](long x) { return x + 2; });
+    auto addr = [](auto&& v) -> const void* { return static_cast<const void*>(&v); };
+    bool a1 = addr(g.emit(10)) == &g_verdict;
+    bool a2 = addr(g(10)) == &g_verdict;
+    long vn = g_verdict.n;
+    out += " A:emit=" + std::to_string(a1) + ",call=" + std::to_string(a2) + ",n=" + std::to_string(vn);
+  }
+  {
+    // an exception thrown by a method called through a raw method pointer / an unbound mem_functor reaches the caller
+    struct TH { long boom(long x) { if (x > 0) throw LeafThrow(); return x; } };
+    TH t; std::string r;
+    sigc::slot<long(TH&, long)> s1 = &TH::boom;
+    sigc::slot<long(TH&, long)> s2 = sigc::mem_fun(&TH::boom);
+    sigc::signal<long(TH&, long)> g; g.connect(&TH::boom);
+    try { s1(t, 1); r += "n"; } catch (LeafThrow&) { r += "c"; }
+    try { s2(t, 1); r += "n"; } catch (LeafThrow&) { r += "c"; }
+    try { g.emit(t, 1); r += "n"; } catch (LeafThrow&) { r += "c"; }
+    r += std::to_string(s1(t, 0));
+    out += " T:" + r;
   }
   printf("fixed sigconn %s\n", out.c_str());
   fflush(stdout);
